@@ -395,6 +395,14 @@ func (ex *Exec) applyContract(st *State, fr *Frame, sp *FuncSpec, fn *ssa.Functi
 	for _, m := range sp.Modifies {
 		ex.havocLvalue(st, fr, env, m, pos)
 	}
+	// the callee's own recorders are reset and rewritten by it
+	for _, l := range sp.Locals {
+		for class := range classSorts {
+			if class == "G:$"+l.Name || strings.HasPrefix(class, "G:$"+l.Name+"@") || strings.HasPrefix(class, "G:$"+l.Name+".") {
+				st.havocClass(class)
+			}
+		}
+	}
 	{
 		// the callee may allocate even when it modifies nothing
 		nf := Fresh("hi", SInt)
